@@ -198,6 +198,30 @@ Fixpoint cycle_starts (s : Z) (cs : list cyc_lat) (period : Z) : list Z :=
 Fixpoint end_start (s : Z) (cs : list cyc_lat) (p : Z) : Z :=
   match cs with [] => s | c :: r => end_start (next_start s c p) r p end.
 
+(* What may end the heartbeat loop.  The API calls made on the lock while it is held, by the holder's own lock
+   object ([api_same]) or through other objects for the same lock, each with the instant at which it took effect.
+   heartBeat returns only when ITS context is done (lockfile.go:63): that context is derived from the context given
+   to the acquiring call and registered in the object's cancel store (:161-162), so the loop is ended by the
+   cancellation of the holder's context and by Unlock on the holder's own object (cancelStore.Cancel, :201) — and by
+   nothing else: not by a failing TryLock, not by a Lock whose deadline expires, not by a LockWithTimeout that
+   times out (it cancels only the two contexts it registered itself), not by IsStale / ReleaseIfStale, not by
+   anything done through another object (an Unlock there removes the directory; the loop goes on, its writes fail). *)
+Inductive api_kind := KCancelOwn | KUnlock | KTryLock | KLockDeadline | KLockWithTimeout | KIsStale | KReleaseIfStale.
+Record api_call := mkApi { api_k : api_kind; api_same : bool; api_at : Z }.
+
+Definition ends_loop (c : api_call) : bool :=
+  match api_k c with
+  | KCancelOwn => true
+  | KUnlock => api_same c
+  | _ => false
+  end.
+
+Fixpoint loop_end (calls : list api_call) : option Z :=
+  match calls with
+  | [] => None
+  | c :: r => if ends_loop c then Some (api_at c) else loop_end r
+  end.
+
 Definition holder_trace (t0 : Z) (a : acq_lat) (cs : list cyc_lat) (period : Z) : list ev :=
   acquire_events t0 a ++ cycles_events (first_start t0 a) false cs period.
 
@@ -240,12 +264,12 @@ Inductive case :=
    in [l1, h1], its StatTimes in [l2, h2], time.Since in [l3, h3]. *)
 | CTrace (period : Z) (early late : list ev) (l1 h1 l2 h2 l3 h3 : Z) (got : bool)
 (* the recorded operations of a real holder are those of the holder machine run with the measured latencies *)
-(* [cancel]: the instant at which the holder's context was cancelled (no Unlock), if it was: the loop checks its
-   context before every `now`, so at most ONE iteration (whose check had already passed) starts after it.
-   [alive_until]: an instant up to which the holder was alive with a live context and the process demonstrably
-   responsive (reference sleeper): the loop never ends by itself (errors of its writes are ignored), so the next
-   iteration is due at [end_start]; more than 10 periods of silence are not a run of the machine *)
-| CHolder (period : Z) (t0 : Z) (a : acq_lat) (cs : list cyc_lat) (k : nat) (observed : list ev) (cancel alive_until : option Z).
+(* [calls]: the API calls made on the lock during the hold, in chronological order.  If one of them ends the loop
+   ([loop_end]) at most ONE iteration (whose context check had already passed) starts after it.
+   [alive_until]: an instant up to which the process was demonstrably responsive (reference sleeper): as long as
+   nothing has ended the loop it never ends by itself (errors of its writes are ignored, other calls do not touch
+   it), so the next iteration is due at [end_start]; more than 10 periods of silence are not a run of the machine *)
+| CHolder (period : Z) (t0 : Z) (a : acq_lat) (cs : list cyc_lat) (k : nat) (observed : list ev) (calls : list api_call) (alive_until : option Z).
 
 Definition check_case (c : case) : bool :=
   match c with
@@ -263,14 +287,18 @@ Definition check_case (c : case) : bool :=
       (* the answer is monotone: later landing, earlier reading, later evaluation => staler *)
       if got then is_stale_na late l1 l2 h3 p       (* the stalest reading consistent with the record must be stale *)
       else negb (is_stale_na early h1 h2 l3 p)      (* the freshest one must not be *)
-  | CHolder p t0 a cs k observed cancel alive_until =>
+  | CHolder p t0 a cs k observed calls alive_until =>
       acq_nonneg a && forallb cyc_nonneg cs && evs_eqb (dead_after k (holder_trace t0 a cs p)) observed
-      && match cancel with
+      && match loop_end calls with
          | None => true
          | Some tc => Nat.leb (length (filter (fun s => tc <? s) (cycle_starts (first_start t0 a) cs p))) 1
          end
       && match alive_until with
          | None => true
-         | Some t => t <=? end_start (first_start t0 a) cs p + 10 * p
+         | Some t =>
+             match loop_end calls with
+             | Some tc => (t <=? tc) && (t <=? end_start (first_start t0 a) cs p + 10 * p) || (tc <? t)
+             | None => t <=? end_start (first_start t0 a) cs p + 10 * p
+             end
          end
   end.
